@@ -44,7 +44,7 @@ func c07Modes(kind string, form string) []string {
 func runC07(r *core.Run) {
 	quick := isQuick(r)
 	dts := []ref.DT{ref.Int, ref.Uint8, ref.Int64, ref.Float32, ref.Float64, ref.Complex128}
-	shapes := [][]int{{3}, {3, 1}, {2, 3}, {2, 1, 3}, {2, 2, 2, 2}}
+	shapes := [][]int{{1, 1}, {3}, {3, 1}, {2, 3}, {2, 1, 3}, {2, 2, 2, 2}}
 	lays := atlas.L5
 	if !quick {
 		dts = ref.NUM14
